@@ -286,7 +286,14 @@ func truncate(s string, n int) string {
 func (ft *FT) Query(o *Obligation) string {
 	e := ft.e
 	head, lfacts := ft.background()
-	all := append(append([]*T{}, ft.facts...), lfacts...)
+	excluded := ft.excludedInvFacts(o)
+	var all []*T
+	for i, f := range ft.facts {
+		if !excluded[i] {
+			all = append(all, f)
+		}
+	}
+	all = append(all, lfacts...)
 	all = append(all, o.Extra...)
 	goalNeg := Not(o.Goal)
 	// unfold spec functions occurring anywhere
@@ -356,7 +363,7 @@ func (ft *FT) unfoldInstances(terms []*T) []*T {
 	seen := map[string]bool{}
 	var out []*T
 	work := terms
-	for round := 0; round < 2; round++ {
+	for round := 0; round < 5; round++ {
 		var next []*T
 		for _, t := range work {
 			t.Walk(func(n *T) {
@@ -462,4 +469,65 @@ func evalConst(t *T) (*big.Int, bool) {
 		return r, true
 	}
 	return nil, false
+}
+
+// excludedInvFacts: an obligation that establishes or preserves a loop
+// invariant is itself assumed elsewhere, so it must not lean on invariant
+// assumptions of loops that come later in the program (or on its own loop, for
+// establishment) - that would be circular. It may use the invariants of loops
+// whose header dominates its location, and (preservation only) of loops nested
+// in its own loop.
+func (ft *FT) excludedInvFacts(o *Obligation) map[int]bool {
+	ex := map[int]bool{}
+	if o.Kind != "inv-init" && o.Kind != "inv-pres" {
+		return ex
+	}
+	for _, f := range ft.invFacts {
+		if !invFactUsable(f, o) {
+			ex[f.idx] = true
+		}
+	}
+	return ex
+}
+
+// blockIn returns the block of body `anc` at which body b (a descendant by
+// inlining) is located, or nil when b is not a descendant of anc.
+func blockIn(b *Body, blk *ssa.BasicBlock, anc *Body) *ssa.BasicBlock {
+	for b != nil && b != anc {
+		blk = b.callBlk
+		b = b.parent
+	}
+	if b == nil {
+		return nil
+	}
+	return blk
+}
+
+func invFactUsable(f invFact, o *Obligation) bool {
+	if o.body == nil || o.blk == nil {
+		return false
+	}
+	// location of the obligation seen from the fact's body
+	if ob := blockIn(o.body, o.blk, f.body); ob != nil {
+		if o.body == f.body {
+			if o.Kind == "inv-init" && f.lp == o.loopRole {
+				return false
+			}
+			if f.lp.Header.Dominates(ob) {
+				return true
+			}
+			// preservation may use loops nested in its own loop
+			return o.Kind == "inv-pres" && o.loopRole != nil && o.loopRole.Blocks[f.lp.Header] && f.lp != o.loopRole
+		}
+		// obligation inside an inlined callee, fact from an enclosing body
+		return f.lp.Header.Dominates(ob)
+	}
+	// fact from an inlined callee, obligation in an enclosing body
+	if fb := blockIn(f.body, f.lp.Header, o.body); fb != nil {
+		if fb.Dominates(o.blk) && fb != o.blk {
+			return true
+		}
+		return o.Kind == "inv-pres" && o.loopRole != nil && o.loopRole.Blocks[fb]
+	}
+	return false
 }
